@@ -27,6 +27,7 @@ type Parser struct {
 	function uint8
 	wbit     bool
 	strict   bool // immutable after NewParser
+	depth    int  // active parseList frames of the message being parsed
 }
 
 // NewParser returns a Parser configured by opts (default: non-strict).
@@ -144,6 +145,7 @@ func (p *Parser) parseMsg(headerOnly bool) (*hsms.DataMessage, error) {
 	p.stream = 0
 	p.function = 0
 	p.wbit = false
+	p.depth = 0
 
 	p.skipComment()
 
@@ -361,6 +363,12 @@ func (p *Parser) parseItem() (secs2.Item, error) {
 }
 
 func (p *Parser) parseList(size int) (secs2.Item, error) {
+	// same cap as the binary decoder: unbounded nesting exhausts the goroutine stack (fatal)
+	p.depth++
+	if p.depth > secs2.MaxListDepth {
+		return nil, p.errf("list nesting depth exceeds maximum allowed: %d", secs2.MaxListDepth)
+	}
+
 	childItems := make([]secs2.Item, 0, size)
 
 	for {
@@ -374,6 +382,7 @@ func (p *Parser) parseList(size int) (secs2.Item, error) {
 
 		case '>':
 			p.forward(1)
+			p.depth--
 			item := secs2.NewListItem(childItems...)
 			childItems = nil //nolint:ineffassign,wastedassign
 
